@@ -609,6 +609,11 @@ func execHNSW(c *hnswCase) []string {
 	nextLevel := -1
 	comet.VerifSetHNSWLevelSource(idx, func() (int, bool) { return nextLevel, nextLevel >= 0 })
 	defer comet.VerifSetHNSWLevelSource(idx, nil)
+	// search objects are executed at once, at once and again after the next Add / Remove / Flush,
+	// or only after it (rexec.go); the search line is emitted where the Execute happens. A search
+	// from the entry point's own position belongs to the removal pattern before it: it is never
+	// only executed later.
+	var rex rexQueue
 	for _, cmd := range c.Cmds {
 		switch cmd.Op {
 		case "add":
@@ -631,18 +636,22 @@ func execHNSW(c *hnswCase) []string {
 				}
 			}
 			lines = append(lines, fmt.Sprintf("op add %d %s => %s%s", id, core.VecHex(raw), out, sn.tail(idx)))
+			rex.run()
 		case "remove":
 			id := resolveTarget(idx, cmd, added, c.NoEntry)
 			err := idx.Remove(*comet.NewVectorNodeWithID(id, nil))
 			lines = append(lines, fmt.Sprintf("op remove %d => %s%s", id, vecErr(err), sn.tail(idx)))
+			rex.run()
 		case "removehood":
 			for _, id := range hnswHood(idx, cmd.Depth) {
 				err := idx.Remove(*comet.NewVectorNodeWithID(id, nil))
 				lines = append(lines, fmt.Sprintf("op remove %d => %s%s", id, vecErr(err), sn.tail(idx)))
 			}
+			rex.run()
 		case "flush":
 			err := idx.Flush()
 			lines = append(lines, "op flush => "+vecErr(err)+sn.tail(idx))
+			rex.run()
 		case "graph":
 			lines = append(lines, hnswGraphLine(idx))
 		case "reach":
@@ -672,17 +681,26 @@ func execHNSW(c *hnswCase) []string {
 			if len(cmd.Filter) > 0 {
 				s = s.WithDocumentIDs(cmd.Filter...)
 			}
-			res, err := s.Execute()
-			out := ""
-			if err != nil {
-				out = "err " + vecErr(err)
-			} else {
-				out = hitsLine(res)
+			exec := func() {
+				res, err := s.Execute()
+				out := ""
+				if err != nil {
+					out = "err " + vecErr(err)
+				} else {
+					out = hitsLine(res)
+				}
+				lines = append(lines, fmt.Sprintf("op search %d %s %s %d %s => %s%s", cmd.K, core.Hex32(thr),
+					core.IDs(cmd.Filter), cmd.Ef, core.VecHex(q), out, sn.tail(idx)))
 			}
-			lines = append(lines, fmt.Sprintf("op search %d %s %s %d %s => %s%s", cmd.K, core.Hex32(thr),
-				core.IDs(cmd.Filter), cmd.Ef, core.VecHex(q), out, sn.tail(idx)))
+			rex.n++
+			mode := rexMode(rex.n)
+			if mode == rexLater && cmd.Target == "entryvec" {
+				mode = rexAgain
+			}
+			rex.put(mode, exec)
 		}
 	}
+	rex.run()
 	return append(lines, "end")
 }
 
